@@ -3,9 +3,10 @@ from props.fsmlib import *
 
 def cases(tier):
     L = []
-    fams = ['f5', 'f10', 'foroot'] if tier == 'quick' else THOROUGH
+    fams = ['f5', 'fsel', 'foroot_small'] if tier == 'quick' else THOROUGH
     T = 1 if tier == 'quick' else 3
     for fam in fams:
+        small = fam.endswith('_small'); fam = fam.replace('_small', '')
         o = dict(sublimit=2, callbacks=['guard', 'life', 'update1', 'select'], act=[], kinds=0)
         fx = fixture('C13', fam, o)
         L.append(tv_case('C13', fx))
@@ -13,7 +14,7 @@ def cases(tier):
         # (a) queries agree with each other for every Inv state
         L.append(fsm_case('C13', fx, 'api', ['ENTRY=9', 'P_C13A'], timeout=300 * T))
         # (b) single pending request, guards approve: answers inside guards vs what then happens
-        for k in (1, 2, 3, 4):
+        for k in ((1, 2, 3, 4) if not small else ()):
             L.append(fsm_case('C13', fx, 'imm%d' % k, ['P_C13', 'ENTRY=2', 'KIND=%d' % k, 'CB_BUDGET=0', 'NO_CANCEL'], timeout=600 * T, witness=(k == 1)))
         # (c) nothing pending inside update callbacks
         L.append(fsm_case('C13', fx, 'update', ['P_C13', 'ENTRY=1', 'CB_BUDGET=0'], timeout=300 * T, witness=False))
